@@ -271,6 +271,8 @@ pub fn scenario(prop: &str, tier: &str, sseed: u64, index: u64) -> (&'static str
         "C10" if structured < 50 => return ("deadline-alignment", families::deadline_alignment(&mut g)),
         "C08" if structured < 50 => return ("on_run-alignment", families::on_run_alignment(&mut g)),
         "C07" | "C11" if structured < 40 => return ("handle-walk", families::handle_walk(&mut g)),
+        "C07" if structured < 52 => return ("abandoned-ops", families::abandoned_ops(&mut g)),
+        "C02" | "C09" if (50..58).contains(&structured) => return ("abandoned-ops", families::abandoned_ops(&mut g)),
         "C02" if structured < 30 => return ("queued-senders", families::queued_senders(&mut g)),
         "C01" if structured < 25 => return ("send-then-drop", families::send_then_drop(&mut g)),
         "C13" if structured < 30 => return ("askers-vs-ending", families::askers_vs_ending(&mut g)),
